@@ -36,7 +36,7 @@ def _attr_error(p):
 
 
 def gen(rng):
-    kind = rng.choice(["bin", "bin", "un", "un", "nonfwd", "nocancel", "timeout", "chain"])
+    kind = rng.choice(["bin", "bin", "un", "un", "nonfwd", "nocancel", "timeout", "chain", "attrseq", "nested_timeout"])
     p = {"kind": kind, "state": rng.choice(["resolved", "resolved", "pending", "failed"]), "vi": rng.randrange(len(VALUES))}
     if kind == "bin":
         p["op"] = rng.randrange(len(BIN))
@@ -54,6 +54,16 @@ def gen(rng):
         p["state"] = rng.choice(["pending", "pending", "failed"])
     elif kind == "timeout":
         p["t"] = rng.choice([0, 0.0, 1, 2, 3, 5])
+    elif kind == "attrseq":
+        # a multi-step use of ONE proxy: attribute reads (plain attribute, computed property, method) interleaved with
+        # changes made to the underlying object: every read must see what the object says NOW
+        p["steps"] = [rng.choice(["get_x", "get_prop", "call_m", "set_x", "set_y", "del_x"]) for _ in range(rng.randint(2, 6))]
+        p["state"] = rng.choice(["resolved", "pending"])
+    elif kind == "nested_timeout":
+        # f_proxy applied to something that is a proxy / wrapper already, each with its own timeout
+        p["inner"] = rng.choice(["proxy", "proxy", "nocancel", "map"])
+        p["t_in"] = rng.choice([None, 50, 7])
+        p["t"] = rng.choice([0, 1, 2, 3])
     elif kind == "nocancel":
         # state of the input when it is wrapped: pending (finishes later), or already resolved / failed / cancelled by its owner
         p["pre"] = rng.choice(["pending", "pending", "resolved", "failed", "cancelled"])
@@ -115,6 +125,54 @@ def execute(p, chooser):
             env.join()
             want = ("e", "KeyError") if p["state"] == "failed" else outcome(lambda: fn(v2, o))
             obs["res"] = ("op", "chain:" + name, got, want)
+            return
+        if kind == "attrseq":
+            class Box(object):
+                def __init__(self):
+                    self.x = 1
+                    self.y = 10
+
+                @property
+                def prop(self):
+                    return (self.__dict__.get("x"), self.y)
+
+                def m(self):
+                    return ("m", self.__dict__.get("x"), self.y)
+            real, ref = Box(), Box()
+            if p["state"] == "resolved":
+                with det.atomic():
+                    f.set_result(real)
+                env = None
+            else:
+                env = det.spawn("e0", lambda: f.set_result(real))
+            px = f_proxy(f, timeout=50)
+            got, want = [], []
+            for k, st in enumerate(p["steps"]):
+                for tgt, acc, obj in ((px, got, real), (ref, want, ref)):
+                    if st == "get_x":
+                        acc.append(outcome(lambda: tgt.x))
+                    elif st == "get_prop":
+                        acc.append(outcome(lambda: tgt.prop))
+                    elif st == "call_m":
+                        acc.append(outcome(lambda: tgt.m()))
+                    elif st == "set_x":
+                        obj.x = 100 + k          # the owner of the object changes it (not through the proxy)
+                    elif st == "set_y":
+                        obj.y = 200 + k
+                    elif st == "del_x":
+                        obj.__dict__.pop("x", None)
+            if env:
+                env.join()
+            obs["res"] = ("op", "attrseq:" + ",".join(p["steps"]), ("v", got), ("v", want))
+            return
+        if kind == "nested_timeout":
+            from more_executors.futures import f_map
+            kw = {} if p["t_in"] is None else {"timeout": p["t_in"]}
+            inner = f_proxy(f, **kw) if p["inner"] == "proxy" else f_nocancel(f) if p["inner"] == "nocancel" else f_map(f, lambda x: x)
+            px = f_proxy(inner, timeout=p["t"])
+            t0 = det.now()
+            r = outcome(lambda: px + 1)
+            obs["res"] = ("timeout", r, det.now() - t0)
             return
         if kind == "timeout":
             px = f_proxy(f, timeout=p["t"])
